@@ -6,7 +6,7 @@ cd /repo || exit 2
 if ! git diff --quiet; then echo "repo dirty"; exit 2; fi
 git apply "$d/patch.diff" || { echo "patch does not apply"; exit 2; }
 for c in "$@"; do
-  out=$(cd /verif && ./check $c 2>&1 | grep -E "^(VIOLATION|KNOWN|C[0-9]+ quick)" | head -4)
+  out=$(cd /verif && ./check $c 2>&1 | grep -E "^(VIOLATION|C[0-9]+ quick)" | head -3)
   echo "== $c: $(echo "$out" | tr '\n' ' ' | cut -c1-400)"
 done
 git -C /repo checkout -- . 
